@@ -266,9 +266,13 @@ PROPS = {
         "claimed": True,
         "technique": "TLA+ contract of the derive macro (To / Update / From on paragraphs as ordered lists, reusing the list semantics of Deb822EditP); TLC proves the round-trip laws on the contract and enumerates struct values x prior paragraphs; replayed on a struct with every field shape, on both paragraph back-ends",
         "level_text": "spec/MCDerive.tla states what the derived conversions must do for a struct covering every shape the macro distinguishes (mandatory/optional, default/renamed key, default/custom (de)serialiser, scalar/list/enum): TLC proves From(To(x)) = x, From(Update(x, p)) = x and that foreign fields keep their place for every value and prior paragraph, and emits the expected paragraphs and the expected error for each broken paragraph; the harness derives the macro on that struct and compares to_paragraph, update_paragraph, from_paragraph and the error texts on lossy::Paragraph and lossless::Paragraph (where comments and the raw lines of foreign fields must be untouched), and that both back-ends agree.",
-        "level_note": "bounded: 2-3 values per field, 6 prior paragraphs (foreign fields, duplicates, own fields in other order), 6 broken paragraphs; thorough: every prior paragraph of <= 3 fields over own and foreign keys, every struct's paragraph with <= 2 unparsable fields and/or removed mandatory fields in both orders; the deriving structs shipped in the workspace are exercised through their documents in C20",
+        "level_note": "bounded: 2-3 values per field, 6 prior paragraphs (foreign fields, duplicates, own fields in other order), 6 broken paragraphs; thorough: every prior paragraph of <= 3 fields over own and foreign keys, every struct's paragraph with <= 2 unparsable fields and/or removed mandatory fields in both orders; the twelve deriving structs shipped in the workspace are run on every paragraph of the typed documents of MCTypedDocs: both back-ends must agree (value, error, printed fields) and update_paragraph on a lossless paragraph holding every field, foreign fields and a comment must leave exactly the value's fields, keep the foreign lines and read back",
         "stages": [{"kind": "tlc_replay", "name": "derive_contract", "module": "MCDerive.tla", "cfg": "MCDerive.cfg", "stage": "derive",
                     "consts": {"quick": {"Deep": "FALSE"}, "thorough": {"Deep": "TRUE"}},
+                    "workers": {"quick": 4, "thorough": 12}, "timeout": {"quick": 300, "thorough": 3000}},
+                   # the deriving structs SHIPPED in the workspace, on the typed documents generated for C20
+                   {"kind": "tlc_replay", "name": "shipped_structs", "module": "MCTypedDocs.tla", "cfg": "MCTypedDocs.cfg", "stage": "typed",
+                    "consts": {"quick": {"NSamples": 3, "Deep": "FALSE"}, "thorough": {"NSamples": 3, "Deep": "TRUE"}},
                     "workers": {"quick": 4, "thorough": 12}, "timeout": {"quick": 300, "thorough": 3000}}],
         "rule": "every (struct value, prior paragraph) pair and every broken paragraph; all distinct",
         "exhaustive": {"quick": True, "thorough": True},
